@@ -566,6 +566,7 @@ fn probes(ctx: &Ctx) {
         // macro calls in it are expanded afterwards
         ("macro/state/conditional-after-nested-call-sees-stale-defines", ".macro inner\n#define INNER_RAN\n.endm\n.macro outer\n inner\n.ifdef INNER_RAN\n.dw 1\n.else\n.dw 2\n.endif\n.endm\n outer\n", ".dw 1\n"),
         ("macro/state/segment-left-by-body-not-seen-by-following-org", ".macro toee\n.eseg\n.endm\n nop\n toee\n.db 1\n.org 0x10\n.db 2\n", " nop\n.eseg\n.db 1\n.org 0x10\n.db 2\n"),
+        ("macro/state/exit-in-body-ends-only-the-expansion", ".macro m\n nop\n.exit\n.endm\n m\n ret\n", " nop\n.exit\n ret\n"),
         ("macro/state/toplevel-conditional-after-call-sees-stale-defines", ".macro setter\n#define SETTER_RAN\n.endm\n setter\n.ifdef SETTER_RAN\n.dw 1\n.else\n.dw 2\n.endif\n", ".dw 1\n"),
         ("macro/pc-relative-in-repeated-one-line-body", ".macro dly\n rjmp pc+1\n.endm\n dly\n dly\n dly\n", " rjmp pc+1\n rjmp pc+1\n rjmp pc+1\n"),
         ("macro/body-starting-with-eseg", ".macro ee\n.eseg\n.db 1,2,3\n.dw 0x1234\n.cseg\n.endm\n nop\n ee\n nop\n", " nop\n.eseg\n.db 1,2,3\n.dw 0x1234\n.cseg\n nop\n"),
